@@ -32,7 +32,7 @@ var c10Profile = &kvh.GenProfile{
 
 func TestC10(t *testing.T) {
 	st := kvh.StatsFor("C10")
-	st.SetRule(c10Rule,
+	st.SetRule(c10Rule+" || "+fmt.Sprintf(snapRule, "NewIterator (traversed later), ListKeys and Fold", "the creation of an iterator, the whole call for ListKeys and Fold"),
 		"seeking backwards over keys already passed is not asserted (the generator never issues such a Seek; skipped ones are counted)",
 		"a fresh iterator WITH a prefix is not read before its first Rewind/Seek",
 		"bounds: <= 40 keys at index level, <= 14 keys at DB level, <= 30 calls per session")
@@ -47,6 +47,11 @@ func TestC10(t *testing.T) {
 		checkCases(t, st, func(t *rapid.T) {
 			runHistoryCase(t, "C10", c10Profile, func(r *kvh.Runner) bool { return r.F.IterNonTrivial > 0 })
 		})
+	})
+	t.Run("under-a-writer", func(t *testing.T) {
+		restore := scaleRapidChecksDiv(4)
+		defer restore()
+		snapConcurrent(t, st, "C10", []string{"iterator", "listkeys", "fold"}, 0)
 	})
 }
 
